@@ -504,7 +504,7 @@ impl Prop for C14 {
             assumptions: vec!["one generated input set (20 messages, 4 files); lifecycle ids of the CLI are assumed to count from 1 in creation order in a fresh process".into()],
             budget_s: (150, 1500),
             workers: 1,
-            required_landmarks: vec!["window", "lcs", "eac", "ffile_dlf", "ffile_conv", "ffile_dlf_marker", "ffile_dlf_blank_payload", "sort", "o_file", "o_target_exists", "perm", "empty_selection", "nonempty_selection", "export_twice", "large_input"],
+            required_landmarks: vec!["window", "lcs", "eac", "ffile_dlf", "ffile_conv", "ffile_dlf_marker", "ffile_dlf_blank_payload", "sort", "o_file", "o_target_exists", "perm", "empty_selection", "nonempty_selection", "export_twice", "large_input", "file_order_ties"],
         }
     }
     fn prepare(&self, _t: Tier) -> Result<(), String> {
@@ -596,6 +596,75 @@ impl Prop for C14 {
             }
         }
         ctx.end_family(true);
+        // file order with ties: two files of different ECUs whose first messages have distinct reception times and
+        // whose later messages tie across the files; every option set must print / write the same for both orders
+        {
+            ctx.begin_family("file_order_ties", "two files (ECU1 / ECU2), first messages at distinct times, later messages with identical reception times across the files: output for (f1 f2) == output for (f2 f1) for -a, -a -b 2 -e 7, -a --sort, -o, -o -b 3 -e 9");
+            let mk = |ecu: &[u8; 4], times_s: &[u32], tag: &str| -> Vec<u8> {
+                let mut b = vec![];
+                for (i, t) in times_s.iter().enumerate() {
+                    let spec = MsgSpec {
+                        htyp: VERS1 | UEH | WEID | WTMS,
+                        storage_ecu: *ecu,
+                        hdr_ecu: *ecu,
+                        apid: *b"AP1\0",
+                        ctid: *b"CT1\0",
+                        mcnt: i as u8,
+                        timestamp: 10_000 + t * 10_000,
+                        secs: 1_650_000_000 + t,
+                        micros: 0,
+                        verb_mstp_mtin: 0x41,
+                        noar: 1,
+                        payload: verbose_str_payload(&format!("{tag} {i}")),
+                        ..Default::default()
+                    };
+                    b.extend_from_slice(&spec.to_bytes());
+                }
+                b
+            };
+            let (f1, f2) = (format!("{}/tie1.dlt", w.dir), format!("{}/tie2.dlt", w.dir));
+            std::fs::write(&f1, mk(b"ECU1", &[0, 2, 4, 6, 8, 10], "one")).expect("write");
+            std::fs::write(&f2, mk(b"ECU2", &[1, 2, 4, 5, 10, 11], "two")).expect("write");
+            let optsets: Vec<Vec<&str>> = vec![vec!["-a"], vec!["-a", "-b", "2", "-e", "7"], vec!["-a", "--sort"], vec!["-o"], vec!["-o", "-b", "3", "-e", "9"]];
+            for (oi, opts) in optsets.iter().enumerate() {
+                if !ctx.mine() {
+                    continue;
+                }
+                let cj = || json!({"family": "file_order_ties", "options": opts});
+                let mut outs = vec![];
+                for (k, order) in [[&f1, &f2], [&f2, &f1]].iter().enumerate() {
+                    let mut cmd = Command::new(adlt_bin());
+                    cmd.arg("convert");
+                    let outp = format!("{}/tie-out-{oi}-{k}.dlt", w.dir);
+                    for o in opts {
+                        cmd.arg(o);
+                        if *o == "-o" {
+                            cmd.arg(&outp);
+                        }
+                    }
+                    cmd.arg(order[0]).arg(order[1]);
+                    match cmd.output() {
+                        Ok(o) if o.status.success() => {
+                            let written = std::fs::read(&outp).unwrap_or_default();
+                            let _ = std::fs::remove_file(&outp);
+                            // printed lines without the date column are compared as they are; written files by their messages
+                            let file_msgs: Vec<(u32, Vec<u8>)> = DltMessageIterator::new(0, &written[..]).map(|m| (m.timestamp_dms, m.payload.clone())).collect();
+                            outs.push((String::from_utf8_lossy(&o.stdout).to_string(), file_msgs));
+                        }
+                        Ok(o) => ctx.violation("exit_status", "file_order_ties", cj, format!("adlt convert exited with {:?}", o.status.code())),
+                        Err(e) => ctx.violation("spawn", "", cj, e.to_string()),
+                    }
+                }
+                if outs.len() == 2 && outs[0] != outs[1] {
+                    let first_diff = outs[0].0.lines().zip(outs[1].0.lines()).position(|(a, b)| a != b);
+                    ctx.violation("file_order", "ties_across_files", cj, format!("the two file orders give different results (first differing printed line {:?}; written files hold {} / {} messages{})", first_diff, outs[0].1.len(), outs[1].1.len(), if outs[0].1 != outs[1].1 { ", different sequences" } else { "" }));
+                }
+                ctx.landmark("file_order_ties");
+                ctx.eval(true);
+                ctx.sample(cj);
+            }
+            ctx.end_family(true);
+        }
         // inputs larger than the reader's buffer: a maximum-size message at every buffered-byte count around the low
         // mark of convert's file reader (the option product above runs on small files only)
         let (lo, hi) = ctx.tier.pick((65_525usize, 65_565usize), (65_400usize, 65_700usize));
